@@ -6,6 +6,7 @@
   Modelled, not verified: astropy's sky projections / rotations (wcslib); they enter through the
   `Lawful`-style hypotheses and are measured by the harness.
 -/
+import GwcsProofs.C02b
 import GwcsProofs.Lemmas.SepLemmas
 import GwcsProofs.C01
 import Mathlib.Tactic.FieldSimp
